@@ -127,72 +127,82 @@ theorem buildText_not_empty_vis {cs : CharSpec} (off : Nat) (ts : List Tok)
     · exact key _ hfr
     · exact key _ hfr
 
-/-- **a text run over `ts[c0..c3]`** (what `BlockParser::text` is called with): every content token
-    of the slice lies inside the span of the assembled text, which has fragments and is not blank -/
+/-- **a text run over `ts[c0..c3]`** (what `BlockParser::text` is called with): every token with a
+    body of the slice lies inside the span of the assembled text, which has fragments -/
+theorem textRun_coverB {ts : List Tok} (hw : WF ts) {c0 c3 : Nat} (hle : c0 ≤ c3)
+    {i : Nat} (h1 : c0 ≤ i) (h2 : i < c3) {t : Tok} (ht : ts[i]? = some t) (hb : HasBody t) :
+    (buildText (offAt ts c0) (slice ts c0 c3)).frags ≠ [] ∧
+    (buildText (offAt ts c0) (slice ts c0 c3)).span.start ≤ tokBodyStart t ∧
+    t.stop ≤ (buildText (offAt ts c0) (slice ts c0 c3)).span.stop := by
+  have hr : RunAt (offAt ts c0) (slice ts c0 c3) := slice_runAt hw.run hle
+  have hm : t ∈ slice ts c0 c3 := cover_mem_slice h1 h2 ht
+  obtain ⟨k1, k2, k3⟩ := cov_buildText_span _ _ hr.1 hr.2 t hm hb
+  exact ⟨k3, k1, k2⟩
+
+/-- … and when the token is a content token the text is not blank -/
 theorem textRun_cover {cs : CharSpec} {ts : List Tok} (hw : WF ts) {c0 c3 : Nat} (hle : c0 ≤ c3)
     {i : Nat} (h1 : c0 ≤ i) (h2 : i < c3) {t : Tok} (ht : ts[i]? = some t) (hct : Wordy cs t) :
     (buildText (offAt ts c0) (slice ts c0 c3)).frags ≠ [] ∧
     (buildText (offAt ts c0) (slice ts c0 c3)).isTextEmpty cs = false ∧
     (buildText (offAt ts c0) (slice ts c0 c3)).span.start ≤ tokBodyStart t ∧
     t.stop ≤ (buildText (offAt ts c0) (slice ts c0 c3)).span.stop := by
-  have hr : RunAt (offAt ts c0) (slice ts c0 c3) := slice_runAt hw.run hle
   have hm : t ∈ slice ts c0 c3 := cover_mem_slice h1 h2 ht
   have hb : HasBody t := hct.hasBody (hw.run.2 t (List.mem_of_getElem? ht))
-  obtain ⟨k1, k2, k3⟩ := cov_buildText_span _ _ hr.1 hr.2 t hm hb
+  obtain ⟨k3, k1, k2⟩ := textRun_coverB hw hle h1 h2 ht hb
   exact ⟨k3, buildText_not_empty_vis _ _ ⟨t, hm, hct.2.1, hct.1⟩, k1, k2⟩
 
 /-! ### the queue predicate -/
 
-/-- the tokens of `K` (earlier blocks) are covered, and so are the content tokens of the block
-    before position `n` -/
-def CovQ (cs : CharSpec) (K : Tok → Prop) (ts : List Tok) (n : Nat) (evs : Array (Ev α)) : Prop :=
-  (∀ t, K t → CoveredBy evs t) ∧ ∀ i, i < n → ∀ t, ts[i]? = some t → Wordy cs t → CoveredBy evs t
+/-- the tokens of `K` (earlier blocks) are covered, and so are the tokens of the block before
+    position `n` that satisfy `C` (`Wordy cs`: content tokens; `HasBody`: all tokens with a body) -/
+def CovQ (C : Tok → Prop) (K : Tok → Prop) (ts : List Tok) (n : Nat) (evs : Array (Ev α)) : Prop :=
+  (∀ t, K t → CoveredBy evs t) ∧ ∀ i, i < n → ∀ t, ts[i]? = some t → C t → CoveredBy evs t
 
-variable {cs : CharSpec} {K : Tok → Prop} {ts : List Tok} {e : Ext} {s : BP α} {off : Nat} {w : List Char}
+variable {cs : CharSpec} {C : Tok → Prop} {K : Tok → Prop} {ts : List Tok} {e : Ext} {s : BP α} {off : Nat} {w : List Char}
 
-theorem CovQ.push {n : Nat} {evs : Array (Ev α)} (h : CovQ cs K ts n evs) (ev : Ev α) :
-    CovQ cs K ts n (evs.push ev) :=
+theorem CovQ.push {n : Nat} {evs : Array (Ev α)} (h : CovQ C K ts n evs) (ev : Ev α) :
+    CovQ C K ts n (evs.push ev) :=
   ⟨fun t ht => (h.1 t ht).push ev, fun i hi t ht hc => (h.2 i hi t ht hc).push ev⟩
 
 /-- advance over tokens that are covered (or are no content) -/
-theorem CovQ.advance {n n' : Nat} {evs : Array (Ev α)} (h : CovQ cs K ts n evs)
-    (hn : ∀ i, n ≤ i → i < n' → ∀ t, ts[i]? = some t → Wordy cs t → CoveredBy evs t) :
-    CovQ cs K ts n' evs := by
+theorem CovQ.advance {n n' : Nat} {evs : Array (Ev α)} (h : CovQ C K ts n evs)
+    (hn : ∀ i, n ≤ i → i < n' → ∀ t, ts[i]? = some t → C t → CoveredBy evs t) :
+    CovQ C K ts n' evs := by
   refine ⟨h.1, fun i hi t ht hc => ?_⟩
   rcases Nat.lt_or_ge i n with h' | h'
   · exact h.2 i h' t ht hc
   · exact hn i h' hi t ht hc
 
 /-- push an event whose span covers the content tokens from `n` to `n'` -/
-theorem CovQ.pushCover {n n' : Nat} {evs : Array (Ev α)} (h : CovQ cs K ts n evs) (ev : Ev α)
-    (hn : ∀ i, n ≤ i → i < n' → ∀ t, ts[i]? = some t → Wordy cs t →
+theorem CovQ.pushCover {n n' : Nat} {evs : Array (Ev α)} (h : CovQ C K ts n evs) (ev : Ev α)
+    (hn : ∀ i, n ≤ i → i < n' → ∀ t, ts[i]? = some t → C t →
       ∃ sp, ev.srcSpan = some sp ∧ sp.start ≤ tokBodyStart t ∧ t.stop ≤ sp.stop) :
-    CovQ cs K ts n' (evs.push ev) :=
+    CovQ C K ts n' (evs.push ev) :=
   (h.push ev).advance (fun i h1 h2 t ht hc => by
     obtain ⟨sp, k1, k2, k3⟩ := hn i h1 h2 t ht hc
     exact ⟨ev, by simp, sp, k1, k2, k3⟩)
 
-theorem covCtx (hw : WFI off w ts) (n : Nat) : Ctx off w (CovQ (α := α) cs K ts n) ts :=
+theorem covCtx (hw : WFI off w ts) (n : Nat) : Ctx off w (CovQ (α := α) C K ts n) ts :=
   ⟨hw, fun evs d h _ => ⟨h.push _, h.push _⟩⟩
 
 /-! ### steps, with components -/
 
 /-- one iteration of `parse_step`: the tokens it consumes are covered — by the component event,
     whose span is exactly the consumed bytes, or by the text event -/
-theorem stepOne_coverAll (hw : WFI off w ts) (hz : Boundary off w 0) (h : GE (CovQ cs K ts s.cur) ts e s)
+theorem stepOne_coverAll (hw : WFI off w ts) (hz : Boundary off w 0) (hC : ∀ t ∈ ts, C t → HasBody t) (h : GE (CovQ C K ts s.cur) ts e s)
     (hlt : s.cur < ts.length) :
-    Sat (stepOne (α := α)) s (fun _ s' => GE (CovQ cs K ts s'.cur) ts e s' ∧ s.cur < s'.cur) := by
-  have hc : Ctx off w (CovQ (α := α) cs K ts s.cur) ts := covCtx hw _
+    Sat (stepOne (α := α)) s (fun _ s' => GE (CovQ C K ts s'.cur) ts e s' ∧ s.cur < s'.cur) := by
+  have hc : Ctx off w (CovQ (α := α) C K ts s.cur) ts := covCtx hw _
   unfold stepOne
   apply Sat.bind
-  apply Sat.mono (Q := fun r s' => GE (CovQ cs K ts s.cur) ts e s' ∧
+  apply Sat.mono (Q := fun r s' => GE (CovQ C K ts s.cur) ts e s' ∧
     match r with
     | none => s'.cur = s.cur
     | some ev => s.cur < s'.cur ∧ ev.srcSpan = some ⟨offAt ts s.cur, offAt ts s'.cur⟩)
   · have comp : ∀ (p : P α (Option (Ev α))),
-        (∀ s0 : BP α, GE (CovQ cs K ts s.cur) ts e s0 → Sat p s0 (fun r s' => GE (CovQ cs K ts s.cur) ts e s' ∧
+        (∀ s0 : BP α, GE (CovQ C K ts s.cur) ts e s0 → Sat p s0 (fun r s' => GE (CovQ C K ts s.cur) ts e s' ∧
           (r.isSome = true → s0.cur < s'.cur) ∧ CompRet off w ts s0.cur s'.cur r ∧ EvAt ts s0.cur s'.cur r)) →
-        Sat (withRecover p) s (fun r s' => GE (CovQ cs K ts s.cur) ts e s' ∧
+        Sat (withRecover p) s (fun r s' => GE (CovQ C K ts s.cur) ts e s' ∧
           match r with
           | none => s'.cur = s.cur
           | some ev => s.cur < s'.cur ∧ ev.srcSpan = some ⟨offAt ts s.cur, offAt ts s'.cur⟩) := by
@@ -241,14 +251,13 @@ theorem stepOne_coverAll (hw : WFI off w ts) (hz : Boundary off w 0) (h : GE (Co
     have hr : RunAt (offAt ts s1.cur) ((s3.toks.take s3.cur).drop s1.cur) := by
       rw [g3.g.toks]; exact slice_runAt hw.wf.run hle
     refine Sat.bind (bpText_sat hr ?_)
-    have hcov : ∀ i, s1.cur ≤ i → i < s3.cur → ∀ t, ts[i]? = some t → Wordy cs t →
+    have hcov : ∀ i, s1.cur ≤ i → i < s3.cur → ∀ t, ts[i]? = some t → C t →
         (buildText (offAt ts s1.cur) ((s3.toks.take s3.cur).drop s1.cur)).frags ≠ [] ∧
         (buildText (offAt ts s1.cur) ((s3.toks.take s3.cur).drop s1.cur)).span.start ≤ tokBodyStart t ∧
         t.stop ≤ (buildText (offAt ts s1.cur) ((s3.toks.take s3.cur).drop s1.cur)).span.stop := by
       intro i k1 k2 t ht hct
       rw [g3.g.toks]
-      obtain ⟨m1, -, m3, m4⟩ := textRun_cover hw.wf hle k1 k2 ht hct
-      exact ⟨m1, m3, m4⟩
+      exact textRun_coverB hw.wf hle k1 k2 ht (hC t (List.mem_of_getElem? ht) hct)
     split
     · refine Sat.pushEv ⟨g3.push (g3.evs.pushCover _ ?_), by show s.cur < s3.cur; omega⟩
       intro i k1 k2 t ht hct
@@ -264,9 +273,9 @@ theorem stepOne_coverAll (hw : WFI off w ts) (hz : Boundary off w 0) (h : GE (Co
       | nil => exact absurd hf m1
       | cons _ _ => simp
 
-theorem stepLoop_coverAll (hw : WFI off w ts) (hz : Boundary off w 0) (fuel : Nat)
-    (h : GE (CovQ cs K ts s.cur) ts e s) (hf : ts.length - s.cur ≤ fuel) :
-    Sat (stepLoop (α := α) fuel) s (fun _ s' => GE (CovQ cs K ts ts.length) ts e s' ∧ s'.cur = ts.length) := by
+theorem stepLoop_coverAll (hw : WFI off w ts) (hz : Boundary off w 0) (hC : ∀ t ∈ ts, C t → HasBody t) (fuel : Nat)
+    (h : GE (CovQ C K ts s.cur) ts e s) (hf : ts.length - s.cur ≤ fuel) :
+    Sat (stepLoop (α := α) fuel) s (fun _ s' => GE (CovQ C K ts ts.length) ts e s' ∧ s'.cur = ts.length) := by
   have hle := h.le
   induction fuel generalizing s with
   | zero =>
@@ -286,17 +295,17 @@ theorem stepLoop_coverAll (hw : WFI off w ts) (hz : Boundary off w 0) (fuel : Na
       exact Sat.pure ⟨by rw [← e1]; exact h, e1⟩
     · rename_i hemp
       have hlt := drop_isEmpty_false (by simpa using hemp)
-      refine Sat.bind (Sat.mono (stepOne_coverAll hw hz h hlt) ?_)
+      refine Sat.bind (Sat.mono (stepOne_coverAll hw hz hC h hlt) ?_)
       rintro _ s1 ⟨g1, c1⟩
       exact ih g1 (by omega) g1.le
 
-theorem parseStep_coverAll (hw : WFI off w ts) (hz : Boundary off w 0) (h : GE (CovQ cs K ts s.cur) ts e s) :
-    Sat (parseStep (α := α)) s (fun _ s' => GE (CovQ cs K ts ts.length) ts e s' ∧ s'.cur = ts.length) := by
+theorem parseStep_coverAll (hw : WFI off w ts) (hz : Boundary off w 0) (hC : ∀ t ∈ ts, C t → HasBody t) (h : GE (CovQ C K ts s.cur) ts e s) :
+    Sat (parseStep (α := α)) s (fun _ s' => GE (CovQ C K ts ts.length) ts e s' ∧ s'.cur = ts.length) := by
   unfold parseStep
   refine Sat.bind (Sat.pushEv ?_)
-  have g1 : GE (CovQ cs K ts s.cur) ts e { s with evs := s.evs.push (.start .step) } := h.push (h.evs.push _)
+  have g1 : GE (CovQ C K ts s.cur) ts e { s with evs := s.evs.push (.start .step) } := h.push (h.evs.push _)
   refine Sat.bind (restToks_sat g1.g ?_)
-  refine Sat.bind (Sat.mono (stepLoop_coverAll hw hz _ g1 (by simp)) ?_)
+  refine Sat.bind (Sat.mono (stepLoop_coverAll hw hz hC _ g1 (by simp)) ?_)
   rintro _ s2 ⟨g2, c2⟩
   exact Sat.pushEv ⟨g2.push (g2.evs.push _), c2⟩
 
@@ -308,15 +317,15 @@ theorem Sat.and {β : Type} {m : P α β} {s : BP α} {Q Q' : β → BP α → P
 theorem Sat.withCs {β : Type} {m : P α β} {s : BP α} {Q : β → BP α → Prop} (h : Sat m s Q) (hi : IndA m) :
     Sat m s (fun r s' => Q r s' ∧ s'.cs = s.cs) := ⟨h, (hi.all s).cs⟩
 
-theorem GE.adv {n n' : Nat} (h : GE (CovQ cs K ts n) ts e s)
-    (hn : ∀ i, n ≤ i → i < n' → ∀ t, ts[i]? = some t → ¬ Wordy cs t) : GE (CovQ cs K ts n') ts e s :=
+theorem GE.adv {n n' : Nat} (h : GE (CovQ (Wordy cs) K ts n) ts e s)
+    (hn : ∀ i, n ≤ i → i < n' → ∀ t, ts[i]? = some t → ¬ Wordy cs t) : GE (CovQ (Wordy cs) K ts n') ts e s :=
   h.mono (fun hi => hi.advance (fun i a b t ht hc => absurd hc (hn i a b t ht)))
 
 /-! ### text blocks -/
 
-theorem textLineK_coverAll (hw : WFI off w ts) (h : GE (CovQ cs K ts s.cur) ts e s) (hcs : s.cs = cs)
+theorem textLineK_coverAll (hw : WFI off w ts) (h : GE (CovQ (Wordy cs) K ts s.cur) ts e s) (hcs : s.cs = cs)
     (k : P α Unit) (Q : Unit → BP α → Prop)
-    (hk : ∀ (s2 : BP α), GE (CovQ cs K ts s2.cur) ts e s2 → s2.cs = cs → s.cur ≤ s2.cur →
+    (hk : ∀ (s2 : BP α), GE (CovQ (Wordy cs) K ts s2.cur) ts e s2 → s2.cs = cs → s.cur ≤ s2.cur →
       (s.cur < ts.length → s.cur < s2.cur) → Sat k s2 Q) :
     Sat (textLineK (α := α) k) s Q := by
   unfold textLineK
@@ -373,10 +382,10 @@ theorem textLineK_coverAll (hw : WFI off w ts) (h : GE (CovQ cs K ts s.cur) ts e
     apply hemp
     rw [m2]; rfl
 
-theorem textBlockLoop_coverAll (hw : WFI off w ts) (fuel : Nat) (h : GE (CovQ cs K ts s.cur) ts e s)
+theorem textBlockLoop_coverAll (hw : WFI off w ts) (fuel : Nat) (h : GE (CovQ (Wordy cs) K ts s.cur) ts e s)
     (hcs : s.cs = cs) (hf : ts.length - s.cur ≤ fuel) :
     Sat (textBlockLoop (α := α) fuel) s
-      (fun _ s' => GE (CovQ cs K ts ts.length) ts e s' ∧ s'.cur = ts.length) := by
+      (fun _ s' => GE (CovQ (Wordy cs) K ts ts.length) ts e s' ∧ s'.cur = ts.length) := by
   have hle := h.le
   induction fuel generalizing s with
   | zero =>
@@ -396,9 +405,9 @@ theorem textBlockLoop_coverAll (hw : WFI off w ts) (fuel : Nat) (h : GE (CovQ cs
       exact Sat.pure ⟨by rw [← e1]; exact h, e1⟩
     · rename_i hemp
       have hlt := drop_isEmpty_false (by simpa using hemp)
-      have tail : ∀ s1 : BP α, GE (CovQ cs K ts s1.cur) ts e s1 → s1.cs = cs → s.cur ≤ s1.cur →
+      have tail : ∀ s1 : BP α, GE (CovQ (Wordy cs) K ts s1.cur) ts e s1 → s1.cs = cs → s.cur ≤ s1.cur →
           Sat (textLineK (α := α) (textBlockLoop fuel)) s1
-            (fun _ s' => GE (CovQ cs K ts ts.length) ts e s' ∧ s'.cur = ts.length) := by
+            (fun _ s' => GE (CovQ (Wordy cs) K ts ts.length) ts e s' ∧ s'.cur = ts.length) := by
         intro s1 g1 cs1 c1
         refine textLineK_coverAll hw g1 cs1 _ _ ?_
         intro s2 g2 cs2 c2 hp
@@ -414,7 +423,7 @@ theorem textBlockLoop_coverAll (hw : WFI off w ts) (fuel : Nat) (h : GE (CovQ cs
       | none => exact tail s1 (by rw [h1.1]; exact g1) (by rw [cs1, hcs]) (by omega)
       | some m =>
         obtain ⟨hm, hmk, c1⟩ := h1
-        have g1' : GE (CovQ cs K ts s1.cur) ts e s1 := by
+        have g1' : GE (CovQ (Wordy cs) K ts s1.cur) ts e s1 := by
           refine g1.adv ?_
           intro i k1 k2 t ht hct
           have : i = s.cur := by omega
@@ -440,12 +449,12 @@ theorem textBlockLoop_coverAll (hw : WFI off w ts) (fuel : Nat) (h : GE (CovQ cs
           subst ht
           exact hct.2.2.1 hwk
 
-theorem parseTextBlock_coverAll (hw : WFI off w ts) (h : GE (CovQ cs K ts s.cur) ts e s) (hcs : s.cs = cs) :
+theorem parseTextBlock_coverAll (hw : WFI off w ts) (h : GE (CovQ (Wordy cs) K ts s.cur) ts e s) (hcs : s.cs = cs) :
     Sat (parseTextBlock (α := α)) s
-      (fun _ s' => GE (CovQ cs K ts ts.length) ts e s' ∧ s'.cur = ts.length) := by
+      (fun _ s' => GE (CovQ (Wordy cs) K ts ts.length) ts e s' ∧ s'.cur = ts.length) := by
   unfold parseTextBlock
   refine Sat.bind (Sat.pushEv ?_)
-  have g1 : GE (CovQ cs K ts s.cur) ts e { s with evs := s.evs.push (.start .text) } := h.push (h.evs.push _)
+  have g1 : GE (CovQ (Wordy cs) K ts s.cur) ts e { s with evs := s.evs.push (.start .text) } := h.push (h.evs.push _)
   refine Sat.bind (restToks_sat g1.g ?_)
   refine Sat.bind (Sat.mono (textBlockLoop_coverAll hw _ g1 hcs (by simp)) ?_)
   rintro _ s2 ⟨g2, c2⟩
@@ -613,9 +622,9 @@ theorem metadataEntry_coverAll (hw : WFI off w ts) (h : G ts e s) (h0 : s.cur = 
 /-! ### blocks -/
 
 theorem parseMultilineBlock_coverAll (hw : WFI off w ts) (hz : Boundary off w 0)
-    (h : GE (CovQ cs K ts s.cur) ts e s) (hcs : s.cs = cs) :
+    (h : GE (CovQ (Wordy cs) K ts s.cur) ts e s) (hcs : s.cs = cs) :
     Sat (parseMultilineBlock (α := α)) s
-      (fun _ s' => GE (CovQ cs K ts ts.length) ts e s' ∧ s'.cur = ts.length) := by
+      (fun _ s' => GE (CovQ (Wordy cs) K ts ts.length) ts e s' ∧ s'.cur = ts.length) := by
   unfold parseMultilineBlock
   refine Sat.bind (allToks_sat h.g ?_)
   split
@@ -630,16 +639,16 @@ theorem parseMultilineBlock_coverAll (hw : WFI off w ts) (hz : Boundary off w 0)
   · refine Sat.bind (peekK_sat h.g ?_)
     split
     · exact parseTextBlock_coverAll hw h hcs
-    · exact parseStep_coverAll hw hz h
+    · exact parseStep_coverAll hw hz (fun t ht hc => hc.hasBody (hw.wf.run.2 t ht)) h
 
 theorem parseBlock_coverAll (oldStyle : Bool) (hw : WFI off w ts) (hz : Boundary off w 0)
-    (h : GE (CovQ cs K ts 0) ts e s) (h0 : s.cur = 0) (hcs : s.cs = cs) :
+    (h : GE (CovQ (Wordy cs) K ts 0) ts e s) (h0 : s.cur = 0) (hcs : s.cs = cs) :
     Sat (parseBlock (α := α) oldStyle) s
-      (fun _ s' => GE (CovQ cs K ts ts.length) ts e s' ∧ s'.cur = ts.length) := by
-  have hc : Ctx off w (CovQ (α := α) cs K ts 0) ts := covCtx hw 0
+      (fun _ s' => GE (CovQ (Wordy cs) K ts ts.length) ts e s' ∧ s'.cur = ts.length) := by
+  have hc : Ctx off w (CovQ (α := α) (Wordy cs) K ts 0) ts := covCtx hw 0
   unfold parseBlock
   apply Sat.bind
-  apply Sat.mono (Q := fun r s' => GE (CovQ cs K ts 0) ts e s' ∧ s'.cs = cs ∧
+  apply Sat.mono (Q := fun r s' => GE (CovQ (Wordy cs) K ts 0) ts e s' ∧ s'.cs = cs ∧
     match r with
     | none => s'.cur = 0
     | some ev => s'.cur = ts.length ∧ EvCovers cs ts ev)
@@ -681,7 +690,7 @@ theorem runBlock_coverAll (cs : CharSpec) (ext : Ext) (oldStyle : Bool) (blk : L
     (hw : WFI off w blk) (hz : Boundary off w 0) (hK : ∀ t, K t → CoveredBy evs t) :
     (∀ t, K t → CoveredBy (runBlock cs ext oldStyle blk evs none).1 t) ∧
     ∀ t ∈ blk, Wordy cs t → CoveredBy (runBlock cs ext oldStyle blk evs none).1 t := by
-  have g0 : GE (CovQ cs K blk 0) blk ext (⟨blk, 0, ext, cs, evs, none⟩ : BP α) :=
+  have g0 : GE (CovQ (Wordy cs) K blk 0) blk ext (⟨blk, 0, ext, cs, evs, none⟩ : BP α) :=
     ⟨⟨rfl, rfl, rfl, Nat.zero_le _⟩, hK, fun i hi => absurd hi (Nat.not_lt_zero _)⟩
   have hne : blk.isEmpty = false := by
     have := hw.ne
@@ -691,7 +700,7 @@ theorem runBlock_coverAll (cs : CharSpec) (ext : Ext) (oldStyle : Bool) (blk : L
       parseBlock (α := α) oldStyle
       let s ← get
       if s.cur ≠ s.toks.length then panicWith "Block tokens not parsed") ⟨blk, 0, ext, cs, evs, none⟩
-      (fun _ s' => CovQ cs K blk blk.length s'.evs) := by
+      (fun _ s' => CovQ (Wordy cs) K blk blk.length s'.evs) := by
     simp only [hne, Bool.false_eq_true, if_false]
     refine Sat.bind (Sat.mono (parseBlock_coverAll oldStyle hw hz g0 rfl rfl) ?_)
     rintro _ s1 ⟨g1, c1⟩
@@ -699,7 +708,7 @@ theorem runBlock_coverAll (cs : CharSpec) (ext : Ext) (oldStyle : Bool) (blk : L
     have : s1.cur = s1.toks.length := by rw [g1.g.toks]; exact c1
     simp only [this, ne_eq, not_true_eq_false, if_false]
     exact Sat.pure g1.evs
-  have key' : CovQ cs K blk blk.length (runBlock cs ext oldStyle blk evs none).1 := key
+  have key' : CovQ (Wordy cs) K blk blk.length (runBlock cs ext oldStyle blk evs none).1 := key
   refine ⟨key'.1, fun t ht hct => ?_⟩
   obtain ⟨i, hi, hget⟩ := List.mem_iff_getElem.1 ht
   exact key'.2 i hi t (by rw [List.getElem?_eq_getElem hi, hget]) hct
@@ -723,6 +732,71 @@ theorem runBlock_coverAll_wf (cs : CharSpec) (ext : Ext) (oldStyle : Bool) (blk 
     ∀ t ∈ blk, Wordy cs t → CoveredBy (runBlock cs ext oldStyle blk evs none).1 t :=
   (runBlock_coverAll (K := fun _ => False) cs ext oldStyle blk evs (wf_wfi hw) Boundary.first
     (fun _ h => h.elim)).2
+
+/-- **step blocks, components included, every token with a body**: a block of adjacent tokens whose
+    first token is none of `>>`, `=`, `>` and which is not blank is parsed as a step whose events
+    cover every token that is not a comment — words, numbers, punctuation, whitespace, line breaks,
+    the markers and braces of components (the generalisation of `runBlock_step_cover` to blocks
+    with `@ # ~`) -/
+theorem runBlock_step_coverB (cs : CharSpec) (ext : Ext) (oldStyle : Bool) (b : List Tok) (evs : Array (Ev α))
+    (hw : WF b)
+    (hhead : ∀ t, b.head? = some t → t.kind ≠ .metaStart ∧ t.kind ≠ .eq ∧ t.kind ≠ .textStep)
+    (hnb : b.all (fun t => isEmptyTok t.kind) = false) :
+    ∀ t ∈ b, HasBody t → CoveredBy (runBlock cs ext oldStyle b evs none).1 t := by
+  have hwi := wf_wfi hw
+  have hz : Boundary 0 (List.replicate (baseOff b) 'a' ++ b.flatMap (·.text)) 0 := Boundary.first
+  have g0 : GE (CovQ HasBody (fun _ => False) b 0) b ext (⟨b, 0, ext, cs, evs, none⟩ : BP α) :=
+    ⟨⟨rfl, rfl, rfl, Nat.zero_le _⟩, fun _ h => h.elim, fun i hi => absurd hi (Nat.not_lt_zero _)⟩
+  have hne : b.isEmpty = false := by
+    have := hw.ne
+    cases b <;> simp_all
+  obtain ⟨t0, rest, rfl⟩ : ∃ t0 rest, b = t0 :: rest := by
+    cases b with
+    | nil => simp at hne
+    | cons t0 rest => exact ⟨t0, rest, rfl⟩
+  obtain ⟨k1, k2, k3⟩ := hhead t0 rfl
+  have key : Sat (do
+      if (t0 :: rest).isEmpty then panicWith "BlockParser::new: empty tokens"
+      parseBlock (α := α) oldStyle
+      let s ← get
+      if s.cur ≠ s.toks.length then panicWith "Block tokens not parsed") ⟨t0 :: rest, 0, ext, cs, evs, none⟩
+      (fun _ s' => CovQ HasBody (fun _ => False) (t0 :: rest) (t0 :: rest).length s'.evs) := by
+    simp only [hne, Bool.false_eq_true, if_false]
+    refine Sat.bind ?_
+    apply Sat.mono (Q := fun _ s' => GE (CovQ HasBody (fun _ => False) (t0 :: rest) (t0 :: rest).length)
+      (t0 :: rest) ext s' ∧ s'.cur = (t0 :: rest).length)
+    · unfold parseBlock
+      apply Sat.bind
+      apply Sat.mono (Q := fun r s' => r = none ∧ s' = (⟨t0 :: rest, 0, ext, cs, evs, none⟩ : BP α))
+      · refine Sat.bind (peekK_sat g0.g ?_)
+        simp only [List.getElem?_cons_zero, Option.map_some]
+        split
+        · rename_i heq; simp only [Option.some.injEq] at heq; exact absurd heq k1
+        · rename_i heq; simp only [Option.some.injEq] at heq; exact absurd heq k2
+        · exact Sat.pure ⟨rfl, rfl⟩
+      rintro r s1 ⟨rfl, rfl⟩
+      dsimp only
+      unfold parseMultilineBlock
+      refine Sat.bind (allToks_sat g0.g ?_)
+      rw [hnb]
+      simp only [Bool.false_eq_true, if_false]
+      refine Sat.bind (peekK_sat g0.g ?_)
+      simp only [List.getElem?_cons_zero, Option.map_some]
+      split
+      · rename_i heq
+        have : t0.kind = .textStep := by simpa using heq
+        exact absurd this k3
+      · exact parseStep_coverAll hwi hz (fun _ _ h => h) g0
+    · rintro _ s1 ⟨g1, c1⟩
+      refine Sat.bind (Sat.get ?_)
+      have : s1.cur = s1.toks.length := by rw [g1.g.toks]; exact c1
+      simp only [this, ne_eq, not_true_eq_false, if_false]
+      exact Sat.pure g1.evs
+  have key' : CovQ HasBody (fun _ => False) (t0 :: rest) (t0 :: rest).length
+      (runBlock cs ext oldStyle (t0 :: rest) evs none).1 := key
+  intro t ht hb
+  obtain ⟨i, hi, hget⟩ := List.mem_iff_getElem.1 ht
+  exact key'.2 i hi t (by rw [List.getElem?_eq_getElem hi, hget]) hb
 
 /-! ### whole inputs -/
 
